@@ -80,12 +80,19 @@ def run(name, checks):
     res = {}
     try:
         for c in checks:
+            scratch = tempfile.mkdtemp(prefix='kseed_', dir='/tmp')
             r = subprocess.run(['/verif/checks/check.py', c, '--tier', 'quick'], capture_output=True, text=True,
-                               env=dict(os.environ, KINGDON_SRC=wt), cwd='/verif')
+                               env=dict(os.environ, KINGDON_SRC=wt, VERIF_WORK_DIR=scratch + '/work', VERIF_EVIDENCE_DIR=scratch + '/evidence'), cwd='/verif')
+            shutil.rmtree(scratch, ignore_errors=True)
             nv = len(re.findall(r'^VIOLATION', r.stdout, re.M))
             last = r.stdout.strip().splitlines()[-1] if r.stdout.strip() else ''
-            res[c] = {'exit': r.returncode, 'violation_lines': nv, 'summary': last}
+            first = next((l.strip() for l in r.stdout.splitlines() if l.startswith('  ') and ':' in l), '')
+            res[c] = {'exit': r.returncode, 'violation_lines': nv, 'summary': last, 'example': first[:300]}
             print(name, 'on', base, c, 'exit', r.returncode, last)
+        meta.setdefault('detection', {})
+        for c, v in res.items():
+            meta['detection'][c] = {'base': base, 'exit': v['exit'], 'summary': v['summary'], 'example': v['example']}
+        json.dump(meta, open(f'{d}/meta.json', 'w'), indent=1)
     finally:
         rm_wt(wt)
     return base, res
